@@ -16,7 +16,7 @@ import (
 )
 
 func init() {
-	register("C07", "Finite-domain folding of three extracted formulas, exhaustive over n = 0..255 (the wire format's one-byte guardian count): the return expression of Go processor.CalculateQuorum (SSA of a pure, call-free, loop-free int function — checked), the return expression of Solidity Messages.quorum and the Ralph `let quorumSize = …` in governance.ral are extracted from today's sources and folded with each language's integer semantics; for every n all equal floor(2n/3)+1, and for n>=1: 3q>2n and q<=n. This is constant propagation over an extracted expression tree, not execution of repository code. Plus use-site rules: every quorum comparison in the node and the explorer calls CalculateQuorum(len(<keys>)), Solidity verifyVM compares signatures.length < quorum(keys.length) and rejects empty sets, Ralph asserts quorumSize <= signatureSize and guardianSize != 0. Also run on the pinned module-cache copy of the node the explorer links.", c07)
+	register("C07", "Finite-domain folding of three extracted formulas, exhaustive over n = 0..255 (the wire format's one-byte guardian count): the return expression of Go processor.CalculateQuorum (SSA of a pure, call-free, loop-free int function — checked), the return expression of Solidity Messages.quorum and the Ralph `let quorumSize = …` in governance.ral are extracted from today's sources and folded with each language's integer semantics; for every n all equal floor(2n/3)+1, and for n>=1: 3q>2n and q<=n. This is constant propagation over an extracted expression tree, not execution of repository code. Plus use-site rules: every quorum comparison in the node and the explorer calls CalculateQuorum(len(<keys>)), Solidity verifyVM compares signatures.length < quorum(keys.length) and rejects empty sets, Ralph asserts quorumSize <= signatureSize and guardianSize != 0. Also run on the pinned module-cache copy of the node the explorer links. (use-explorer-set) position i of the explorer's guardian-set list holds the set with index i (rule shared with C19), so the n the explorer feeds the threshold is the size of the set the VAA names.", c07)
 }
 
 // foldSSA evaluates a pure integer SSA expression tree over parameter value n.
